@@ -184,7 +184,7 @@ class n0list_(list):
                         json_convention=json_convention,
                         skip_empty_arrays=skip_empty_arrays,
                         show_item_count=False,
-        )
+        ) or "[]"  # skip_empty_arrays: nothing left to print
 
 
 ################################################################################
